@@ -195,6 +195,17 @@ impl Job for ClockJob {
 
 // ------------------------------------------------------------------ (b) bounded liveness
 
+/// the host calls main twice without resetting anything: a budget that tripped must stay tripped
+pub fn live_ops() -> Vec<HostOp> {
+    vec![
+        HostOp::Instantiate { slot: 0 },
+        HostOp::Run { slot: 0, func: "main".into() },
+        HostOp::Run { slot: 0, func: "main".into() },
+        HostOp::DropAllResults,
+        HostOp::DropScope { slot: 0 },
+    ]
+}
+
 pub fn live_limits() -> Limits {
     Limits { size: Some(400_000), depth: Some(60), recursion: Some(2_000), ud_call: Some(3_000), search: Some(500), time_ns: None }
 }
@@ -343,6 +354,9 @@ pub const FIXED: &[(&str, &str)] = &[
     ("binom-huge", "fn main()->bool{ binom(10 ** 9, 5 * 10 ** 8) > 0 }"),
     ("binom-mid", "fn main()->bool{ binom(10 ** 6, 10 ** 3) > 0 }"),
     ("multinom", "fn main()->bool{ multinom([10 ** 6, 10 ** 6, 10 ** 6]) > 0 }"),
+    ("multinom-two-huge-terms", "fn main()->bool{ multinom([10 ** 8, 10 ** 8]) > 0 }"),
+    ("multinom-many-terms", "fn main()->bool{ multinom(range(1, 3000)) > 0 }"),
+    ("binom-two-thirds", "fn main()->bool{ binom(3 * 10 ** 8, 10 ** 8) > 0 }"),
     ("str-mul-huge", "fn main()->int{ (\"ab\" * 10 ** 12).len() }"),
     ("seq-mul-huge-to-array", "fn main()->int{ ([1, 2] * 10 ** 12).to_array().len() }"),
     ("range-huge-to-array", "fn main()->int{ range(10 ** 12).to_array().len() }"),
@@ -415,10 +429,11 @@ impl LiveJob {
         for k in 0..count {
             let text = random_pipeline(&mut rng);
             let mut sc = Scenario::standard(&text, live_limits());
+            sc.ops = live_ops();
             sc.seed = spec.seed.wrapping_add(k as u64);
             // vary the budgets too, so that nothing depends on one configuration
             sc.limits.search = Some([1, 7, 100, 500, 5000][rng.below(5) as usize]);
-            sc.limits.ud_call = Some([10, 300, 3000][rng.below(3) as usize]);
+            sc.limits.ud_call = Some([0, 1, 10, 300, 300, 3000, 3000, 3000][rng.below(8) as usize]);
             sc.label = format!("C10 live {}", text.trim().replace('\n', " "));
             scenarios.push(sc);
         }
@@ -432,6 +447,7 @@ impl LiveJob {
             .filter(|(n, _)| only.map_or(true, |o| o == *n))
             .map(|(n, text)| {
                 let mut sc = Scenario::standard(text, live_limits());
+                sc.ops = live_ops();
                 sc.label = format!("C10 live fixed:{n}");
                 sc
             })
